@@ -339,6 +339,7 @@ class BaseData:
                 if normalize_name(renamed_column["from"]) == normalize_name(
                     column["name"]
                 ):
+                    self.rename_in_primary_key(column["name"], renamed_column["to"])
                     column["name"] = renamed_column["to"]
                     break
 
@@ -346,6 +347,13 @@ class BaseData:
             self.alter[table_alter_key] = []
 
         self.alter[table_alter_key].extend(statement[alter_key])
+
+    def rename_in_primary_key(self, old_name: str, new_name: str) -> None:
+        # the key follows its column: primary_key lists names of the table's columns
+        # (in place: the list is already part of the reported table)
+        for num, key in enumerate(self.primary_key):
+            if normalize_name(key) == normalize_name(old_name):
+                self.primary_key[num] = new_name
 
     def set_alter_to_table_data(self, key: str, statement: Dict) -> None:
         if not self.alter.get(key + "s"):
